@@ -1,61 +1,134 @@
-"""Run verification units (in a fork pool) and summarise their obligations."""
+"""Run verification units (in a fork pool) and summarise their obligations.
+
+A unit may be sharded: a pre-pass explores the decision tree down to a split
+depth (proving what it meets) and returns the frontier prefixes; the shards
+explore below their prefixes in parallel.  Obligations met while replaying a
+prefix were checked by the pre-pass, so nothing is skipped."""
 import multiprocessing
 import os
 import time
 import traceback
 
-from .smt import Config, Collector, explore, PROVED, REFUTED, UNDECIDED, UNCHECKED, EngineError
+from .smt import Config, Collector, explore, PROVED, REFUTED, UNDECIDED, UNCHECKED, EngineError, _RANK
 from .program import Program
 
 _STATE = {}
 
 
-def _run_one(name):
-    reg = _STATE['registry']
-    cfg = _STATE['cfg']
-    unit = _STATE['units'][name]
-    program = Program()
-    col = Collector(name)
-    t0 = time.time()
-    c2 = cfg
+def _cfg_for(unit, cfg):
     if getattr(unit, 'max_paths', None):
         c2 = Config(cfg.tier, cfg.seed)
         c2.__dict__.update(cfg.__dict__)
         c2.max_paths = unit.max_paths
-    crash = None
-    try:
-        explore(lambda ctx: unit.run_path(ctx, program, reg), col, c2)
-    except Exception:
-        crash = traceback.format_exc()
+        return c2
+    return cfg
+
+
+def _summary(name, unit, col, program, t0, crash, frontier=None):
     files = {}
     for m in program.modules.values():
         files[os.path.relpath(m.path, program.root)] = m.sha256
     return {
-        'unit': name,
-        'kind': unit.kind,
-        'functions': unit.functions(),
-        'paths': col.paths,
+        'unit': name, 'kind': unit.kind, 'functions': unit.functions(), 'paths': col.paths,
         'obligations': [o.as_dict() for o in col.obligations.values()],
-        'incomplete': sorted(set(col.incomplete)),
-        'covers': col.covers,
-        'solver_seconds': round(col.solver_seconds, 3),
-        'wall_s': round(time.time() - t0, 3),
-        'dropped_calls': sorted(set(col.dropped_calls)),
-        'assumed_contracts': sorted(col.assumed),
-        'crash': crash,
-        'files': files,
+        'incomplete': sorted(set(col.incomplete)), 'covers': col.covers,
+        'solver_seconds': round(col.solver_seconds, 3), 'wall_s': round(time.time() - t0, 3),
+        'dropped_calls': sorted(set(col.dropped_calls)), 'assumed_contracts': sorted(col.assumed),
+        'crash': crash, 'files': files, 'frontier': frontier,
     }
 
 
+def _run_job(job):
+    name, start, split_depth = job
+    reg = _STATE['registry']
+    unit = _STATE['units'][name]
+    cfg = _cfg_for(unit, _STATE['cfg'])
+    program = Program()
+    col = Collector(name)
+    t0 = time.time()
+    crash = None
+    frontier = None
+    try:
+        frontier = explore(lambda ctx: unit.run_path(ctx, program, reg), col, cfg,
+                           start=start, split_depth=split_depth)
+    except Exception:
+        crash = traceback.format_exc()
+    return _summary(name, unit, col, program, t0, crash, frontier)
+
+
+def _merge(parts):
+    out = dict(parts[0])
+    obl = {}
+    for p in parts:
+        for o in p['obligations']:
+            cur = obl.get(o['name'])
+            if cur is None:
+                obl[o['name']] = dict(o)
+                continue
+            cur['paths'] += o['paths']
+            cur['seconds'] = round(cur['seconds'] + o['seconds'], 4)
+            if _RANK[o['status']] > _RANK[cur['status']]:
+                keep = {'paths': cur['paths'], 'seconds': cur['seconds']}
+                cur.clear()
+                cur.update(o)
+                cur.update(keep)
+            elif o['backend'] != cur['backend'] and o['status'] == cur['status'] == PROVED:
+                if o['backend'] not in cur['backend']:
+                    cur['backend'] = '+'.join(sorted(set(cur['backend'].split('+')) | set(o['backend'].split('+'))))
+    out['obligations'] = list(obl.values())
+    out['paths'] = sum(p['paths'] for p in parts)
+    out['incomplete'] = sorted(set(x for p in parts for x in p['incomplete']))
+    cov = {}
+    for p in parts:
+        for k, v in p['covers'].items():
+            cov[k] = cov.get(k, False) or v
+    out['covers'] = cov
+    out['solver_seconds'] = round(sum(p['solver_seconds'] for p in parts), 3)
+    out['wall_s'] = round(sum(p['wall_s'] for p in parts), 3)
+    out['dropped_calls'] = sorted(set(x for p in parts for x in p['dropped_calls']))
+    out['assumed_contracts'] = sorted(set(x for p in parts for x in p['assumed_contracts']))
+    crashes = [p['crash'] for p in parts if p['crash']]
+    out['crash'] = crashes[0] if crashes else None
+    files = {}
+    for p in parts:
+        files.update(p['files'])
+    out['files'] = files
+    out['shards'] = len(parts) - 1
+    return out
+
+
 def run_units(registry, units, cfg, jobs=None):
-    """units: dict name -> unit.  Returns list of result dicts (input order)."""
+    """units: dict name -> unit.  Returns list of result dicts (input order).
+
+    Units with a `split_depth` are explored as a dynamic work queue: every job
+    explores at most `split_depth` new decision levels below its start prefix and
+    hands back the frontier, which is re-queued."""
     _STATE['registry'] = registry
     _STATE['cfg'] = cfg
     _STATE['units'] = units
     names = list(units)
-    jobs = jobs or min(len(names), int(os.environ.get('PYVC_JOBS', '16')) or 1)
-    if jobs <= 1 or len(names) <= 1:
-        return [_run_one(n) for n in names]
-    ctx = multiprocessing.get_context('fork')
-    with ctx.Pool(jobs) as pool:
-        return pool.map(_run_one, names, chunksize=1)
+    njobs = jobs or int(os.environ.get('PYVC_JOBS', '16')) or 1
+    if njobs <= 1:
+        return [_run_job((n, None, None)) for n in names]
+    mp = multiprocessing.get_context('fork')
+    parts = {n: [] for n in names}
+    with mp.Pool(njobs) as pool:
+        pending = []
+        for n in names:
+            sd = getattr(units[n], 'split_depth', None)
+            pending.append(pool.apply_async(_run_job, ((n, None, sd),)))
+        while pending:
+            nxt = []
+            for h in pending:
+                if not h.ready():
+                    nxt.append(h)
+                    continue
+                r = h.get()
+                parts[r['unit']].append(r)
+                sd = getattr(units[r['unit']], 'split_depth', None)
+                for pre in (r.get('frontier') or []):
+                    nxt.append(pool.apply_async(_run_job, ((r['unit'], [pre], len(pre) + sd),)))
+            pending = nxt
+            if pending:
+                time.sleep(0.02)
+    return [_merge(parts[n]) for n in names]
